@@ -113,6 +113,42 @@ func checkC14(e *Engine, r *Report) {
 	})
 	r.MinInstances("functions reachable from handlers", len(scope), 300)
 
+	// a literal nil passed for a pointer parameter of a repository function makes that parameter nilable (`takeCPUs(&set,
+	// nil, …)`): the callee must test it before dereferencing it
+	nLit := 0
+	for _, fn := range scope {
+		AllInstrs(fn, func(in ssa.Instruction) {
+			ci, ok := in.(ssa.CallInstruction)
+			if !ok || ci.Common().IsInvoke() {
+				return
+			}
+			g := ci.Common().StaticCallee()
+			if g == nil || g.Blocks == nil || !isRepoFn(g) {
+				return
+			}
+			args := callArgs(ci)
+			if len(args) != len(g.Params) {
+				return
+			}
+			for j, a := range args {
+				k, isK := a.(*ssa.Const)
+				if !isK || !k.IsNil() {
+					continue
+				}
+				if _, isPtr := g.Params[j].Type().Underlying().(*types.Pointer); !isPtr {
+					continue
+				}
+				if c.nilableParams[g] == nil {
+					c.nilableParams[g] = map[int]bool{}
+				}
+				if !c.nilableParams[g][j] {
+					nLit++
+				}
+				c.nilableParams[g][j] = true
+			}
+		})
+	}
+	_ = nLit
 	// propagate nilable parameters two levels: a nilable value passed on as an argument
 	for round := 0; round < 3; round++ {
 		for _, fn := range scope {
